@@ -16,7 +16,7 @@ let parse_model ?(nolocs = false) (bs : n list) : string =
     Buffer.contents b
 
 (* token stream of the stand-alone lexer; also returns the tokens *)
-let lex_model (bs : n list) : string * ltok list =
+let lex_model ?(always = false) (bs : n list) : string * ltok list =
   oracle_used := false;
   match lex_all gbk_oracle bs with
   | OutOfFuel -> ("MODEL-OUT-OF-FUEL", [])
@@ -25,12 +25,13 @@ let lex_model (bs : n list) : string * ltok list =
     if !oracle_used then ("SKIP-ORACLE", []) else
     let errs = List.concat_map (fun (t : ltok) -> t.lerrs) lts in
     let lex = List.sort compare (List.map lexerr_s errs) in
-    let wl = (errs = []) in
+    let wl = (errs = []) || always in
     let b = Buffer.create 1024 in
     Buffer.add_string b ("L:" ^ String.concat "," lex ^ " T:");
     let prev = ref zero_tok in
     List.iter (fun (t : ltok) ->
       let l = tok_loc !prev t.lt in
-      Buffer.add_string b (Printf.sprintf " %s:%s%s" (kind_s t.lt.tk) (hex_of_bytes t.lt.tstr) (loc_s wl l));
+      Buffer.add_string b (Printf.sprintf " %s:%s%s" (kind_s t.lt.tk) (hex_of_bytes t.lt.tstr)
+                             (loc_s (wl && not (always && kind_s t.lt.tk = "59")) l));
       prev := t.lt) lts;
     (Buffer.contents b, lts)
